@@ -72,13 +72,20 @@ func (s *socket) addPipe(tp transport.Pipe, d *dialer, l *listener) {
 
 	p.lock.Lock()
 	if p.closing {
+		// Closed by the hook; it was never added, so remPipe will not
+		// run: drop it from the list and release its ID here.
 		p.lock.Unlock()
+		s.pipes.Remove(p)
+		pipeIDs.Free(p.id)
 		return
 	}
 	if s.proto.AddPipe(p) != nil {
 		p.lock.Unlock()
 		s.pipes.Remove(p)
-		go p.close()
+		go func() {
+			p.close()
+			pipeIDs.Free(p.id)
+		}()
 		return
 	}
 	p.added = true
